@@ -28,6 +28,11 @@ type knownFile struct {
 
 type baselineFile struct {
 	Proved map[string][]string `json:"proved"` // property -> obligation names
+	// function under contract -> hash of its source modulo local variable names (shape.go), recorded on the unchanged tree
+	Shape map[string]string `json:"shape,omitempty"`
+	// the names of its locals in first-occurrence order at that time: if only names changed since (same shape), contract
+	// clauses written with the old names are evaluated with the names now at the same positions
+	Locals map[string][]string `json:"locals,omitempty"`
 }
 
 func loadBaseline(verif string) *baselineFile {
@@ -38,6 +43,12 @@ func loadBaseline(verif string) *baselineFile {
 	}
 	if b.Proved == nil {
 		b.Proved = map[string][]string{}
+	}
+	if b.Shape == nil {
+		b.Shape = map[string]string{}
+	}
+	if b.Locals == nil {
+		b.Locals = map[string][]string{}
 	}
 	return b
 }
@@ -55,6 +66,26 @@ func loadKnown(verif string) *knownFile {
 // The baseline therefore records them per function and kind ("F/index": every index expression of F is in bounds):
 // an unproved site fails that aggregated obligation whatever its ordinal, and a site that no longer exists is no alarm.
 var siteRe = regexp.MustCompile(`^(.*/)(index|slice|nilderef|nilfunc|nilinvoke|typeassert|makelen|alloccap|divzero|shiftneg|nilmapstore|chansend|chanclose|panic|assigns|requires@[^#]*)#\d+((\.\d+)?)$`)
+
+// staleReason: the function under contract could not be explored because its contract no longer matches the shape
+// of the code - a name used in a clause (local variable, field, method, callee, type) does not exist any more, or the
+// function itself is gone (renamed, moved). Nothing about the property is decided for such a function: this is not a
+// counterexample and not an obligation the solver refused, so it is reported as STALE-CONTRACT (undecided), never as
+// a violation.
+func staleReason(why string) bool {
+	if strings.Contains(why, "same shape found as ") {
+		return true // the function was renamed / moved: a function of identical shape exists under another name
+	}
+	if !strings.Contains(why, "contract error: ") {
+		return false
+	}
+	for _, m := range []string{"unknown identifier", "unknown function ", "no method "} {
+		if strings.Contains(why, m) {
+			return true
+		}
+	}
+	return false
+}
 
 func baseKey(name string) string {
 	if m := siteRe.FindStringSubmatch(name); m != nil {
@@ -168,6 +199,20 @@ func report(cfg *config, e *Engine, results []*funcResult, tLoad, tGen, tSolve, 
 			outOfReach[r.Func] = r.Reach
 		}
 	}
+	// A contract that cannot be evaluated is "stale" (undecided, no alarm) only if the function's source is unchanged
+	// modulo the names of its locals (same shape hash as recorded with the baseline): then the only thing that can have
+	// happened is a renaming. If the shape changed as well, the function fell out of reach through a real change.
+	shapes := map[string]string{}
+	localsNow := map[string][]string{}
+	for _, r := range results {
+		shapes[r.Func] = r.Shape
+		localsNow[r.Func] = r.Locals
+		if why, bad := outOfReach[r.Func]; bad && staleReason(why) && !strings.Contains(why, "same shape found as ") {
+			if base.Shape[r.Func] == "" || base.Shape[r.Func] != r.Shape {
+				outOfReach[r.Func] = "code changed shape and " + strings.Replace(why, "contract error: ", "contract no longer evaluates: ", 1)
+			}
+		}
+	}
 	exit := 0
 	for _, r := range rows {
 		solverS += r.Secs
@@ -205,6 +250,10 @@ func report(cfg *config, e *Engine, results []*funcResult, tLoad, tGen, tSolve, 
 			if strings.HasSuffix(f, "::"+strings.SplitN(r.Name, "/", 2)[0]) {
 				fnReach = why
 			}
+		}
+		if fnReach != "" && staleReason(fnReach) {
+			undecided = append(undecided, r.Name+" (stale contract: "+fnReach+")")
+			continue
 		}
 		if ok && fnReach == "" {
 			nDis++
@@ -265,10 +314,18 @@ func report(cfg *config, e *Engine, results []*funcResult, tLoad, tGen, tSolve, 
 		}
 		r := &summaryRow{Name: n, Kind: "missing", Status: "missing"}
 		why := "obligation from the baseline was not generated (function removed, renamed, or out of reach)"
+		stale := false
 		for f, w := range outOfReach {
 			if strings.HasSuffix(f, "::"+strings.SplitN(n, "/", 2)[0]) {
 				why += ": " + w
+				if staleReason(w) {
+					stale = true
+				}
 			}
+		}
+		if stale {
+			undecided = append(undecided, n+" (stale contract)")
+			continue
 		}
 		rp := writeReplay(replayDir, cfg, r, why)
 		violations = append(violations, fmt.Sprintf("VIOLATION property=%s replay=%s obligation=%s no-failing-input-found", cfg.prop, rp, n))
@@ -284,6 +341,11 @@ func report(cfg *config, e *Engine, results []*funcResult, tLoad, tGen, tSolve, 
 	sort.Strings(knownHits)
 	for _, k := range knownHits {
 		fmt.Println(k)
+	}
+	for f, w := range outOfReach {
+		if staleReason(w) {
+			fmt.Printf("STALE-CONTRACT property=%s function=%s undecided: %s\n", cfg.prop, f, w)
+		}
 	}
 	if len(machinery) > 0 {
 		for _, m := range machinery {
@@ -382,14 +444,14 @@ func report(cfg *config, e *Engine, results []*funcResult, tLoad, tGen, tSolve, 
 			// every instance discharged in well under the quick timeout, so that solver jitter on another machine cannot
 			// raise an alarm on the unchanged tree
 			for _, o := range r.inst {
-				if o.Time > float64(cfg.timeout)/2 {
+				if o.Time > float64(cfg.timeout)/4 {
 					slowName[r.Name] = true
 					failedKey[baseKey(r.Name)] = true
 				}
 			}
 		}
 		for n := range slowName {
-			fmt.Printf("NOTE: not admitted to the baseline (slow, > %ds): %s\n", cfg.timeout/2, n)
+			fmt.Printf("NOTE: not admitted to the baseline (slow, > %.1fs): %s\n", float64(cfg.timeout)/4, n)
 		}
 		keys := map[string]bool{}
 		for _, n := range proved {
@@ -403,6 +465,12 @@ func report(cfg *config, e *Engine, results []*funcResult, tLoad, tGen, tSolve, 
 		}
 		sort.Strings(proved)
 		base.Proved[cfg.prop] = proved
+		for f, h := range shapes {
+			if h != "" {
+				base.Shape[f] = h
+				base.Locals[f] = localsNow[f]
+			}
+		}
 		writeJSON(filepath.Join(cfg.verif, "baseline", "obligations.json"), base)
 	}
 	fmt.Printf("property=%s obligations=%d discharged=%d undecided=%d violations=%d known=%d out_of_reach=%d wall=%.1fs (load %.1f gen %.1f solve %.1f)\n",
